@@ -192,10 +192,11 @@ CloudPutV(s, log, k, v, x, K) ==
        THEN (IF le.x # x THEN [c |-> "vm", log |-> log] ELSE [c |-> "ok", log |-> log])
   ELSE [c |-> "ok", log |-> [log EXCEPT ![k] = Ent(v, x)]]
 
-\* put (cloud.rs:93): the version is the LOCAL version + 1 (with cloudChecksStaged: a write
-\* already staged for the key keeps its version)
+\* put (cloud.rs:93): the version is the LOCAL version + 1 (with cloudChecksStaged: never below
+\* a version already staged for the key)
 CloudPutVersion(s, k, K) ==
-  IF K.cloudChecksStaged /\ Present(s.log[k]) THEN s.log[k].v ELSE s.loc[k].v + 1
+  IF K.cloudChecksStaged /\ Present(s.log[k]) /\ s.log[k].v > s.loc[k].v + 1
+  THEN s.log[k].v ELSE s.loc[k].v + 1
 
 \* put_batch (cloud.rs:121): put_with_version one by one, stops at the first refusal
 RECURSIVE CloudSeq(_, _, _, _, _)
